@@ -668,6 +668,52 @@ fn run_ivtext_rt(a: &Args) -> Args {
     }
 }
 
+// ------------------------------------------------------------------ List / LargeList -> FixedSizeList(n)
+/// c13.list2fsl: [large, n, safe, inner_to] [offsets of the full list array] [list validity] [child validity]
+/// [child values] [row_off, row_len, child_pad]. The child Int32 array is itself a slice (child_pad hidden slots in front),
+/// the list array is built on it and then sliced to rows row_off .. row_off + row_len (first offset > 0).
+/// inner_to 0: FixedSizeList<Int32>, 1: FixedSizeList<Int64> (inner cast). Output [row validity] [inner validity] [inner values].
+fn run_list2fsl(a: &Args) -> Args {
+    let h = to_i64s(&a[0]);
+    let (large, n, safe, inner_to) = (h[0] != 0, h[1] as i32, h[2] != 0, h[3]);
+    let offs = to_i64s(&a[1]);
+    let lvalid = to_bools(&a[2]);
+    let cvalid = to_bools(&a[3]);
+    let cvals = to_i64s(&a[4]);
+    let lay = to_i64s(&a[5]);
+    let (ro, rl, cpad) = (lay[0] as usize, lay[1] as usize, lay[2] as usize);
+    let mut cv: Vec<Option<i32>> = (0..cpad).map(|i| if i % 2 == 0 { Some(-7 - i as i32) } else { None }).collect();
+    cv.extend(cvalid.iter().zip(cvals.iter()).map(|(b, v)| if *b { Some(*v as i32) } else { None }));
+    let child: ArrayRef = Arc::new(Int32Array::from(cv).slice(cpad, cvalid.len()));
+    let field = Arc::new(Field::new_list_field(DataType::Int32, true));
+    let nulls = if lvalid.iter().all(|b| *b) && ro % 2 == 0 { None } else { Some(NullBuffer::from(lvalid.clone())) };
+    let list: ArrayRef = if large {
+        match LargeListArray::try_new(field, OffsetBuffer::new(ScalarBuffer::from(offs.clone())), child, nulls) { Ok(l) => Arc::new(l), Err(_) => return skip() }
+    } else {
+        match ListArray::try_new(field, OffsetBuffer::new(ScalarBuffer::from(offs.iter().map(|x| *x as i32).collect::<Vec<_>>())), child, nulls) { Ok(l) => Arc::new(l), Err(_) => return skip() }
+    };
+    let list = list.slice(ro, rl);
+    let inner = if inner_to == 0 { DataType::Int32 } else { DataType::Int64 };
+    let want = DataType::FixedSizeList(Arc::new(Field::new_list_field(inner, true)), n);
+    let r = match cast_with_options(&list, &want, &opts(safe)) { Ok(r) => r, Err(e) => return err_kind(&e) };
+    if r.data_type() != &want { return vec![gs(&[-2i64, 1])]; }
+    if r.len() != rl { return vec![gs(&[-2i64, 2])]; }
+    if r.to_data().validate_full().is_err() { return vec![gs(&[-2i64, 3])]; }
+    let f = r.as_any().downcast_ref::<FixedSizeListArray>().expect("fsl");
+    let mut rv = Vec::new(); let mut iv: Vec<i64> = Vec::new(); let mut ivals: Vec<i64> = Vec::new();
+    for i in 0..rl {
+        rv.push(f.is_valid(i));
+        let row = f.value(i);
+        if row.len() != n as usize { return vec![gs(&[-2i64, 4])]; }
+        for j in 0..n as usize {
+            if !f.is_valid(i) || row.is_null(j) { iv.push(0); ivals.push(0); continue; }
+            iv.push(1);
+            ivals.push(if inner_to == 0 { row.as_any().downcast_ref::<Int32Array>().expect("i32").value(j) as i64 } else { row.as_any().downcast_ref::<Int64Array>().expect("i64").value(j) });
+        }
+    }
+    vec![gbools(rv), gs(&iv), gs(&ivals)]
+}
+
 pub fn run(op: &str, a: &Args) -> Option<Args> {
     Some(match op {
         "c13.cast" | "c13.cast_m" => run_cast(a),
@@ -681,6 +727,7 @@ pub fn run(op: &str, a: &Args) -> Option<Args> {
         "c13.dtype_rt" => run_dtype_rt(a),
         "c13.ivcast" => run_ivcast(a),
         "c13.ivfmt" => run_ivfmt(a),
+        "c13.list2fsl" => run_list2fsl(a),
         "c13.ivtext_rt" => run_ivtext_rt(a),
         _ => return None,
     })
@@ -757,10 +804,9 @@ fn raw_ok(a: &MT, b: &MT, v: &BigInt) -> bool {
         // KNOWN-FINDING candidate: the "infallible" decimal fast path runs `unary(|x| f(x).unwrap())` over every slot,
         // null slots included: a raw value under a null that does not fit the output native type panics.
         (Dec { p: p1, .. }, Dec { .. }) if dec_infallible(a, b) => v.abs() < pow10(p1 as u32),
-        // KNOWN-FINDING candidate: <i256 as ToPrimitive>::to_i64 (arrow-buffer bigint) checks the i256 high word
-        // twice instead of the upper half of the low word: values that fit i128 but not i64 are truncated to their
-        // low 64 bits instead of being rejected (Decimal256 -> integer casts). Excluded: |quotient| >= 2^63.
-        (Dec { bits: 256, .. }, Int { .. } | Ts(..) | Dur(_)) => dec256_int_ok(a, v) && dec_negscale_int_ok(a, v),
+        // (F37, FIXED in /repo 9a87bc3: <i256 as ToPrimitive>::to_i64 checked the i256 high word twice instead of the upper
+        // half of the low word, so Decimal256 -> integer truncated values in [2^63, 2^127) to their low 64 bits. The
+        // exclusion is gone: those values are generated and must be rejected — strict Err, safe null.)
         // KNOWN-FINDING candidate: decimal with a NEGATIVE scale -> integer multiplies by 10^-s in the decimal's own
         // native type (cast_decimal_to_integer: array.value(i).mul_checked(div)): Decimal32(3,-8) value -999 stands
         // for -99_900_000_000, which fits Int64, but the i32 product overflows -> error / null. Excluded: values
@@ -779,12 +825,6 @@ fn dec_negscale_int_ok(a: &MT, v: &BigInt) -> bool {
         if s < 0 { return (v * pow10((-(s as i32)) as u32)).abs() < pow2(bits - 1); }
     }
     true
-}
-fn dec256_int_ok(a: &MT, v: &BigInt) -> bool {
-    if let MT::Dec { s, .. } = *a {
-        let q = if s >= 0 { v / pow10(s as u32) } else { v * pow10((-(s as i32)) as u32) };
-        q.abs() < pow2(63) || q.abs() >= pow2(127)
-    } else { true }
 }
 fn dec_maxp(bits: u32) -> i64 { match bits { 32 => 9, 64 => 18, 128 => 38, _ => 76 } }
 fn dec_infallible(a: &MT, b: &MT) -> bool {
@@ -1440,6 +1480,38 @@ fn gen_regressions(emit: &mut dyn FnMut(Case)) {
     }
 }
 
+/// List / LargeList -> FixedSizeList(n), n = 0..3, on sliced list arrays (first offset > 0, sliced child), both modes:
+/// all lists of the right size / some valid lists wrongly sized (strict error, safe null + padding) / null lists of any
+/// size with garbage underneath / empty slice.
+fn gen_list2fsl(thorough: bool, r: &mut Rng, emit: &mut dyn FnMut(Case)) {
+    let reps = if thorough { 12 } else { 3 };
+    let mut k = 0usize;
+    for n in 0..4i64 { for shape in 0..5usize { for _ in 0..reps {
+        let rows = [0usize, 1, 2, 5, 9, 17][r.below(6)];
+        let mut offs: Vec<i64> = vec![[0i64, 0, 2, 5][r.below(4)]];
+        let mut lvalid = Vec::new();
+        for i in 0..rows {
+            // shape 0: all right; 1: one wrong valid list; 2: several wrong; 3: null lists (right and wrong size); 4: mixture
+            let null = matches!(shape, 3 | 4) && r.chance(1, 3);
+            let wrong = match shape { 0 => false, 1 => i == rows / 2, 2 => r.chance(1, 3), 3 => null && r.bool(), _ => r.chance(1, 4) };
+            let len = if wrong { let l = r.range(0, 4); if l == n { n + 1 } else { l } } else { n };
+            offs.push(offs[i] + len);
+            lvalid.push(!null);
+        }
+        let total = *offs.last().unwrap() as usize + r.below(3);
+        let cvalid: Vec<bool> = (0..total).map(|_| !r.chance(1, 5)).collect();
+        let cvals: Vec<i64> = (0..total).map(|i| (i as i64 + 1) * 10 + r.range(0, 9)).collect();
+        let ro = if rows == 0 { 0 } else { [0usize, 1, rows / 2, rows][r.below(4)].min(rows) };
+        let rl = if r.chance(1, 8) { 0 } else { rows - ro };
+        let cpad = [0usize, 0, 1, 3][r.below(4)];
+        for safe in 0..2i64 {
+            let args: Args = vec![gs(&[(k % 2) as i64, n, safe, ((k / 2) % 2) as i64]), gs(&offs), gbools(lvalid.iter().cloned()), gbools(cvalid.iter().cloned()), gs(&cvals), gs(&[ro as i64, rl as i64, cpad as i64])];
+            emit(Case::new("c13.list2fsl", args, &["c13.list2fsl", "c13.list2fsl.spec"], format!("list2fsl/n{n}/shape{shape}/s{safe}/off{}/e{}", (ro > 0 || offs[0] > 0) as u8, (rl == 0) as u8)));
+        }
+        k += 1;
+    } } }
+}
+
 pub fn generate(tier: &str, r: &mut Rng, emit: &mut dyn FnMut(Case)) {
     let thorough = tier == "thorough";
     gen_regressions(emit);
@@ -1447,6 +1519,7 @@ pub fn generate(tier: &str, r: &mut Rng, emit: &mut dyn FnMut(Case)) {
     gen_inverse(thorough, r, emit);
     gen_interval(thorough, r, emit);
     gen_interval_text(thorough, r, emit);
+    gen_list2fsl(thorough, r, emit);
     gen_text(thorough, r, emit);
     gen_cancast(thorough, r, emit);
     gen_dtype(thorough, r, emit);
